@@ -267,6 +267,44 @@ def rule_negation(ctx):
         ctx.violation("pattern::Atom::indices|negation|0", site(ind, 0), "Atom::indices ignores self.negative")
 
 
+def _is_inner_payload(e, callee_name, depth=0):
+    """`e` is the Some-payload of one call of the inner scorer (through `?`, unwrap-free projections, lossless widening):
+    nothing is added to, subtracted from or substituted for the inner score."""
+    e = strip_casts(e)
+    if depth > 12 or not isinstance(e, tuple) or not e:
+        return False
+    if e[0] in ("field", "downcast", "ref", "deref"):
+        return _is_inner_payload(e[1], callee_name, depth + 1)
+    if e[0] == "cast":
+        return _is_inner_payload(e[2], callee_name, depth + 1)
+    if e[0] == "call":
+        nm = str(e[1])
+        if nm == callee_name or str(e[3] if len(e) > 3 else "").endswith(callee_name):
+            return True
+        short = nm.rsplit("::", 1)[-1]
+        if nm.endswith("Try>::branch") or (short == "from" and "From<" in nm) or (short == "into" and "Into<" in nm) or nm.endswith("From::from") or nm.endswith("Into::into"):
+            return _is_inner_payload(e[2][0], callee_name, depth + 1)
+    return False
+
+
+def _with_captures(cf, e, depth=0):
+    """Replace reads of a closure's captured variables by the captured expression of the parent body."""
+    if not isinstance(e, tuple) or not e or depth > 20:
+        return e
+    if e[0] == "field" and cf.b.get("kind") == "Closure":
+        b = e[1]
+        while isinstance(b, tuple) and b and b[0] in ("ref", "deref"):
+            b = b[1]
+        if isinstance(b, tuple) and b and b[0] == "arg" and b[1] == 1:
+            rc = resolve_capture(cf, e[2])
+            if rc is not None:
+                v = rc[1]
+                while isinstance(v, tuple) and v and v[0] in ("ref",):
+                    v = v[1]
+                return v
+    return tuple(_with_captures(cf, x, depth + 1) if isinstance(x, tuple) else x for x in e)
+
+
 def _inner_call(e, callee_name):
     return [x for x in walk(e) if x[0] == "call" and x[1] == callee_name]
 
@@ -297,8 +335,24 @@ def check_sum_chain(ctx, fn, callee_name, label, needs_empty_exit):
                 r = ps[0][1]
                 inner = _inner_call(r, callee_name)
                 # inner(..) itself, or inner(..).map(u32::from): None stays None, Some(v) becomes Some(v widened)
-                good = len(inner) == 1 and (r == inner[0] or (r[0] == "call" and str(r[1]).endswith("Option::<T>::map") and r[2][0] == inner[0]
-                                                              and r[2][1][0] == "fnitem" and str(r[2][1][1]).endswith("From::from")))
+                def widening(m):
+                    """u32::from / `|s| s as u32` / `|s| u32::from(s)` / `|s| s.into()`: the identity on the score"""
+                    if m[0] == "fnitem":
+                        return str(m[1]).endswith("From::from") or str(m[1]).endswith("::into")
+                    if m[0] == "closure":
+                        mf = get_fn(ctx.facts, crate, m[1])
+                        try:
+                            mp_ = decision_paths(mf)
+                        except Exception:
+                            return False
+                        if len(mp_) != 1 or mp_[0][0] or mp_[0][1] is None:
+                            return False
+                        v = strip_casts(mp_[0][1])
+                        while v[0] == "call" and (str(v[1]).endswith("From::from") or str(v[1]).endswith("From<T>>::from") or str(v[1]).endswith("::into")):
+                            v = strip_casts(v[2][0])
+                        return v[0] == "arg" and v[1] == 2
+                    return False
+                good = len(inner) == 1 and (r == inner[0] or (r[0] == "call" and str(r[1]).endswith("Option::<T>::map") and r[2][0] == inner[0] and widening(r[2][1])))
             if not oke or not good:
                 ctx.violation(key0 + "|accumulator", site(fn, bi), "%s: the mapped value is not the inner Option score (widened): %s" % (label, show(ps[0][1])[:120] if ps else "?"))
                 return True
@@ -324,8 +378,7 @@ def check_sum_chain(ctx, fn, callee_name, label, needs_empty_exit):
                         ops = [strip_casts(vs[2]), strip_casts(vs[3])]
                         tot = [o for o in ops if o[0] == "arg" and o[1] == 2]
                         oth = [o for o in ops if not (o[0] == "arg" and o[1] == 2)]
-                        if len(tot) == 1 and len(oth) == 1 and len(_inner_call(oth[0], callee_name)) == 1 and \
-                                all(x[0] in ("call", "field", "downcast", "cast", "ref", "deref", "arg", "const", "fnitem", "agg", "tuple") for x in walk(oth[0])):
+                        if len(tot) == 1 and len(oth) == 1 and _is_inner_payload(oth[0], callee_name):
                             some_ok = True
                 elif (res[0] == "call" and str(res[1]).endswith("from_residual")) or (res[0] == "agg" and str(res[1]).endswith("Option::None")):
                     none_ok = True
@@ -508,9 +561,10 @@ def rule_sum_and_propagate(ctx):
     else:
         # explicit indexing: pattern = self.cols[i].0, haystack = columns[i] with the SAME index
         okidx = False
-        for bi, t in mp.calls(lambda t: callee(t) == "nucleo_matcher::pattern::Pattern::score"):
-            recv = mp.expr_of_operand(t["args"][0])
-            hay = mp.expr_of_operand(t["args"][1])
+        bodies = closure_tree(facts, "nucleo", mp.path)
+        for f_, bi, t in [(f_, bi, t) for f_ in bodies for bi, t in f_.calls(lambda t: callee(t) == "nucleo_matcher::pattern::Pattern::score")]:
+            recv = _with_captures(f_, f_.expr_of_operand(t["args"][0]))
+            hay = _with_captures(f_, f_.expr_of_operand(t["args"][1]))
             idx_r = [x for x in walk(recv) if x[0] == "index" or (x[0] == "call" and str(x[1]).endswith("::index"))]
             idx_h = [x for x in walk(hay) if x[0] == "index" or (x[0] == "call" and str(x[1]).endswith("::index"))]
 
@@ -524,7 +578,25 @@ def rule_sum_and_propagate(ctx):
                 cols_ok = base_has(idx_r[0], lambda y: y[0] == "field" and y[2] == "cols")
                 hay_ok = base_has(idx_h[0], lambda y: y[0] == "arg" and y[1] == 2)
                 okidx = same and cols_ok and hay_ok
-        if okidx:
+        # the index must run over all columns: a range 0..n with n = cols.len(), the item's column count or their minimum
+        rng_bad = None
+        for f_ in bodies:
+            for bi, t in f_.calls(lambda t: any(str(t.get("fn")).endswith(x) for x in ("Iterator::try_fold", "Iterator::sum", "Iterator::try_for_each", "IntoIterator::into_iter", "Iterator::map"))):
+                e0 = strip_casts(f_.expr_of_operand(t["args"][0]))
+                while e0[0] in ("ref", "deref"):
+                    e0 = strip_casts(e0[1])
+                if e0[0] == "agg" and str(e0[1]).endswith("Range::Range") and isinstance(e0[2], dict):
+                    st_, en_ = strip_casts(e0[2].get("start", ("?",))), e0[2].get("end", ("?",))
+                    lens = [x for x in walk(en_) if x[0] == "call" and str(x[1]).endswith("::len")]
+                    only_len = all(x[0] in ("call", "ref", "deref", "field", "arg", "cast", "local") for x in walk(en_)) and \
+                        all(str(x[1]).endswith(("::len", "::min", "Deref>::deref")) or str(x[1]).endswith("cmp::min") for x in walk(en_) if x[0] == "call")
+                    if tuple(st_[:2]) != ("const", 0):
+                        rng_bad = "the column index starts at %s" % show(st_)[:40]
+                    elif not lens or not only_len:
+                        rng_bad = "the column index runs to %s, not to the number of columns" % show(en_)[:60]
+        if okidx and rng_bad:
+            ctx.violation("pattern::MultiPattern::score|zip|range", site(mp, 0), "MultiPattern::score: %s" % rng_bad)
+        elif okidx:
             ctx.ok(site(mp, 0), "column i's pattern is matched against column i's haystack (same index into self.cols and the item's columns)")
         else:
             ctx.violation("pattern::MultiPattern::score|zip|0", site(mp, 0), "MultiPattern::score does not zip column patterns with column haystacks")
